@@ -159,6 +159,12 @@ def register(reg):
     )
     reg.watch_reads = set(getattr(reg, "watch_reads", set())) | {"HC._connection"}
 
+    def hc_invariant(eng, st, s):
+        return z3.Implies(z3.Select(eng.heap_arr(st, "HC._connection", IntS), s.t) != 0,
+                          z3.Not(z3.Select(eng.heap_arr(st, "HC._connect_failed", z3.BoolSort()), s.t)))
+
+    reg.hc_invariant = hc_invariant
+
     def rely(it, st, old):
         # while this flow holds the connection's request lock nobody else writes _connection
         # (guarantee checked at every write: written_under_request_lock)
@@ -168,9 +174,16 @@ def register(reg):
         if s is None or not isinstance(s, VRef) or s.cls != HC:
             return
         lid = lock_id(eng.heap_read(st, s, "HC._request_lock"))
+        # representation invariant kept by every flow (guarantees: connection_set_only_on_a_connection_not_marked_failed,
+        # connect_failed_set_only_while_unconnected): an established connection is never marked failed
+        eng.assume(st, hc_invariant(eng, st, s))
         if lid in st.held:
             o = eng.old_arr(old, "HC._connection", IntS)
             eng.assume(st, z3.Select(eng.heap_arr(st, "HC._connection", IntS), s.t) == z3.Select(o, s.t))
+            # _connect_failed is only set by the flow that holds the request lock
+            # (guarantee: connect_failed_set_only_by_the_establishing_flow)
+            of = eng.old_arr(old, "HC._connect_failed", z3.BoolSort())
+            eng.assume(st, z3.Select(eng.heap_arr(st, "HC._connect_failed", z3.BoolSort()), s.t) == z3.Select(of, s.t))
         else:
             # once set, _connection is never cleared or replaced
             o = eng.old_arr(old, "HC._connection", IntS)
@@ -444,6 +457,9 @@ def register(reg):
             known, _ = default_port_of(F(c, c.new(c.args["request"], "Request.url"), "URL.scheme"), DEFAULT_PORT_TABLE)
             return [("scheme_supported", known), ("retries_nonneg", F(c, c.self, "HC._retries") >= 0)]
 
+        def setup(self, c):
+            c.eng.assume(c.st, reg.hc_invariant(c.eng, c.st, c.self))
+
         def on_field_write(self, c, obj, key, v, node):
             out = []
             lid = lock_id(c.new(c.self, "HC._request_lock"))
@@ -451,10 +467,12 @@ def register(reg):
                 out.append(("connection_written_under_request_lock", ("C05", "C08", "C04"), lid in c.st.held))
                 reads = [e for e in c.trace if e.name == "field.read" and e.data["key"] == "HC._connection" and lid in e.data["held"]]
                 out.append(("connection_set_only_when_unset", ("C04", "C20"), bool(reads)))
+                out.append(("connection_set_only_on_a_connection_not_marked_failed", ("C04", "C06", "C05"), z3.Not(F(c, c.self, "HC._connect_failed"))))
             if key == "HC._connect_failed":
                 exc = c.interp.exc_stack[-1] if c.interp.exc_stack else None
                 held_at_raise = exc is not None and lid in exc.tag.get("held", [])
                 out.append(("connect_failed_set_only_by_the_establishing_flow", ("C05", "C06", "C04"), held_at_raise))
+                out.append(("connect_failed_set_only_while_unconnected", ("C05", "C06", "C04"), F(c, c.self, "HC._connection") == 0))
             return out
 
         def callsite(self, c, ev):
@@ -551,6 +569,9 @@ def register(reg):
             props = ("C05", "C09", "C01", "C06", "C04")
             result_kind = "bool"
             suspends = False
+
+            def setup(self, c):
+                c.eng.assume(c.st, reg.hc_invariant(c.eng, c.st, c.self))
 
             def checks(self, c):
                 s = c.self
